@@ -45,7 +45,7 @@ Proof. intros [k c] _. destruct c; simpl; try exact I; apply all_lemmas_hold. Qe
 Lemma finding_classes_are :
   finding_classes classification =
   ["maporder:governance-blackquit-events"; "maporder:governance-blackquit-events";
-   "maporder:ontfs-errors-event"; "maporder:cycle-detector-first-entry"]%string.
+   "maporder:cycle-detector-first-entry"]%string.
 Proof. vm_compute. reflexivity. Qed.
 
 (** * 2. Execution by the two roles *)
